@@ -34,3 +34,26 @@ Proof. exact value_forwarding. Qed.
 Theorem C01_routes_agree :
   forall sc : dscript, exact_hints sc = true -> calls_of_value sc = calls_of sc.
 Proof. exact routes_agree. Qed.
+
+(* The MessagePack codec, modelled after rmp / rmp-serde
+   (theories/MsgpackCodecProofs.v): the reader recovers, from the bytes the
+   writer produced for any encodable value and whatever follows them, exactly
+   the events the value was written from — same types (unsigned/negative
+   integer, f32/f64 bit patterns, string vs binary), same strings byte for
+   byte, same array order, same map-entry order — for values of any size and
+   any depth below the limit. *)
+From XtModel Require Import MsgpackModel MsgpackDecProofs MsgpackCodecProofs.
+
+Theorem C01_msgpack_reads_what_was_written :
+  forall (utf8_valid : bytes -> bool) (ext_ok : bool) (v : mval),
+    wfb utf8_valid v = true -> forall (d : nat) (tail : bytes), depth v < d ->
+    decode utf8_valid ext_ok (enc_val v ++ tail) d = (evs v, DOk tail).
+Proof. exact decode_encode. Qed.
+
+(* No two encodable values with different events share an encoding, and no
+   encoding is a proper prefix of another. *)
+Theorem C01_msgpack_encoding_determines_events :
+  forall (utf8_valid : bytes -> bool) (v v' : mval) (t t' : bytes),
+    encodable utf8_valid v -> encodable utf8_valid v' ->
+    enc_val v ++ t = enc_val v' ++ t' -> evs v = evs v' /\ t = t'.
+Proof. exact encoding_determines_events. Qed.
